@@ -55,8 +55,42 @@ DIMS = OrderedDict([
     ("cwd", ["empty", "dir", "file"]),
     ("drop", [DEFAULT_DROP, 1.0]),
     ("tol", [None, 4.0]),
+    ("rows", list(C8.ROWS)),                       # row labels of the frame: default / n-1..0 / offset, non-contiguous
+    ("z", ["none", "zeros", "one", "zeros+one"]),  # supplied VANISHING components (see supplied_components)
 ])
-PRESENTATION = ("dtype", "case", "order", "extras", "cwd")
+PRESENTATION = ("dtype", "case", "order", "extras", "cwd", "rows")
+
+
+def vanishing(system):
+    nvn = set(L.nonvanishing(system))
+    return [j for j in range(21) if j not in nvn]
+
+
+def supplied_components(system, mask, z="none", zc=None):
+    """the supplied components: the subset `mask` of the non-vanishing ones, plus vanishing ones according to z:
+      none       no vanishing component is supplied
+      zeros      ALL vanishing components are supplied, with value 0 (consistent)
+      one        exactly one vanishing component (zc) is supplied, with a clearly non-zero value (inconsistent)
+      zeros+one  all vanishing components are supplied, zc with a clearly non-zero value, the others 0
+    (mask = full and z = zeros / zeros+one is the complete 21-column table).  A vanishing component adds no
+    information about the others: the sufficiency oracle is the same rank test on the union."""
+    S = L.mask_to_subset(system, mask)
+    if z == "none":
+        return S
+    van = vanishing(system)
+    if not van:
+        raise HarnessError(f"{system} has no vanishing component")
+    if z in ("one", "zeros+one") and (zc not in L.INDEX or L.INDEX[zc] not in van):
+        raise HarnessError(f"{system}: {zc!r} is not a vanishing component")
+    if z in ("zeros", "zeros+one"):
+        return sorted(S + van)
+    if z == "one":
+        return sorted(S + [L.INDEX[zc]])
+    raise HarnessError(f"unknown z {z}")
+
+
+def z_inconsistent(c):
+    return c.get("z", "none") in ("one", "zeros+one")
 
 
 # --------------------------------------------------------------------------- scenario (harness side)
@@ -71,7 +105,9 @@ def deltas(tol, ints):
 
 
 def redundant_coordinate(system, S):
-    """first j in S whose value is determined by the other supplied components (rank unchanged without it)"""
+    """first non-vanishing j in S whose value is determined by the other supplied components (rank unchanged without it)"""
+    nvn = set(L.nonvanishing(system))
+    S = [j for j in S if j in nvn]
     r = L.subset_rank(system, S)
     if r == len(S):
         return None
@@ -136,8 +172,9 @@ def measures(system, S, vals, A):
             "maxabs": float(numpy.abs(r).max()), "maxrel": maxrel}
 
 
-def scenario(system, S, kind, ints, small, tol, A):
-    """supplied values (|S| x NV), the invariant tensor they come from, the perturbed coordinate"""
+def scenario(system, S, kind, ints, small, tol, A, zc=None):
+    """supplied values (|S| x NV), the invariant tensor they come from, the perturbed coordinate.
+    zc: a supplied vanishing component that gets a clearly non-zero value at one volume."""
     E = C8.expected_tensor(system, NV, ints=ints, small=small)
     vals = E[list(S)].copy() if S else numpy.zeros((0, NV))
     jstar = None
@@ -159,6 +196,14 @@ def scenario(system, S, kind, ints, small, tol, A):
                 raise HarnessError(f"{system} S={C8.names(S)}: 'small' perturbation is not small under every reading: {m} tol={tol}")
             if kind == "large" and not min(m["rss_joint"], m["rss_fit"], m["maxabs"]) >= 2 * tol:
                 raise HarnessError(f"{system} S={C8.names(S)}: 'large' perturbation is not large under every reading: {m} tol={tol}")
+    if zc is not None:
+        vals[list(S).index(L.INDEX[zc]), PERT_ROW] += deltas(tol, ints)[1]
+        readings = [measures(system, S, vals, reference_rows(system))]
+        if equivalent_to_reference(system, A):
+            readings.append(measures(system, S, vals, A))
+        for m in readings:
+            if not min(m["rss_joint"], m["rss_fit"], m["maxabs"]) >= 2 * tol:
+                raise HarnessError(f"{system} S={C8.names(S)}: non-zero vanishing {zc} is not large under every reading: {m} tol={tol}")
     return E, vals, jstar
 
 
@@ -175,7 +220,7 @@ def equivalent_to_reference(system, A):
     return r(A) == r(T) == r(numpy.vstack([A, T]))
 
 
-def make_table(S, vals, ints, case, order, extras):
+def make_table(S, vals, ints, case, order, extras, rows="default"):
     """the DataFrame handed to the real code; returns (frame, list of non-modulus column names)"""
     import pandas
     cols = [("V", C8.volumes(NV, ints))]
@@ -206,7 +251,7 @@ def make_table(S, vals, ints, case, order, extras):
         cols = cols[k:] + cols[:k]
     elif order != "given":
         raise HarnessError(f"unknown order {order}")
-    return pandas.DataFrame(OrderedDict(cols)), nonmod
+    return C8.relabel_rows(pandas.DataFrame(OrderedDict(cols)), rows), nonmod
 
 
 def call_fill(system, table, cwd, ir, ires, drop, tol):
@@ -242,23 +287,26 @@ def relations_in_force(system, cwd):
 
 
 def cfg_label(c):
-    return (f"{c['system']} S={C8.names(L.mask_to_subset(c['system'], c['mask']))} kind={c['kind']} ignore_rank={c['ir']} "
+    zs = "" if c["z"] == "none" else (" +all vanishing components as 0" if c["z"] == "zeros" else
+                                      f" +vanishing {c['zc']} non-zero" + (", the other vanishing ones as 0" if c["z"] == "zeros+one" else ""))
+    return (f"{c['system']} S={C8.names(L.mask_to_subset(c['system'], c['mask']))}{zs} kind={c['kind']} ignore_rank={c['ir']} "
             f"ignore_residuals={c['ires']} dtype={c['dtype']} case={c['case']} order={c['order']} extras={c['extras']} "
-            f"cwd={c['cwd']} drop_atol={c['drop']} residual_atol={c['tol'] if c['tol'] is not None else 'default'}")
+            f"cwd={c['cwd']} drop_atol={c['drop']} residual_atol={c['tol'] if c['tol'] is not None else 'default'}"
+            + ("" if c["rows"] == "default" else f" row-labels={c['rows']}"))
 
 
-ROOT_DIMS = ("cwd", "extras", "dtype", "case", "order", "drop", "tol")
+ROOT_DIMS = ("cwd", "extras", "dtype", "case", "order", "drop", "tol", "rows")
 
 
 def execute(c, small=True):
     """build the inputs of configuration c and run the real code once"""
     s = c["system"]
-    S = L.mask_to_subset(s, c["mask"])
+    S = supplied_components(s, c["mask"], c["z"], c["zc"])
     ints = c["dtype"] == "int"
     tol = DEFAULT_TOL if c["tol"] is None else c["tol"]
     A = relations_in_force(s, c["cwd"])
-    E, vals, jstar = scenario(s, S, c["kind"], ints, small, tol, A)
-    table, nonmod = make_table(S, vals, ints, c["case"], c["order"], c["extras"])
+    E, vals, jstar = scenario(s, S, c["kind"], ints, small, tol, A, c["zc"] if z_inconsistent(c) else None)
+    table, nonmod = make_table(S, vals, ints, c["case"], c["order"], c["extras"], c["rows"])
     status, res = call_fill(s, table, c["cwd"], c["ir"], c["ires"], c["drop"], c["tol"])
     return S, tol, A, E, vals, jstar, table, nonmod, status, res
 
@@ -307,7 +355,8 @@ def evaluate(c, small=True):
     reasons = []
     if not suff and not c["ir"]:
         reasons.append("insufficient")
-    if c["kind"] == "large" and not c["ires"]:
+    ek = "large" if (c["kind"] == "large" or z_inconsistent(c)) else c["kind"]     # effective value kind
+    if ek == "large" and not c["ires"]:
         reasons.append("inconsistent")
     viol = []
     lab = cfg_label(c)
@@ -332,7 +381,8 @@ def evaluate(c, small=True):
         else:
             sig = "c09:accepts-inconsistent:" + ("full-rank" if suff else "rank-deficient")
             m = measures(s, S, vals, A)
-            what = (f"{L.NAMES[jstar]} at volume {PERT_ROW} was moved by {deltas(tol, ints)[1]} away from consistency "
+            moved = ([L.NAMES[jstar]] if c["kind"] == "large" else []) + ([c["zc"] + " (vanishing in this class)"] if z_inconsistent(c) else [])
+            what = (f"{' and '.join(moved)} at volume {PERT_ROW} was moved by {deltas(tol, ints)[1]} away from consistency "
                     f"({m}; residual_atol {tol}) and ignore_residuals is off")
             if isinstance(res, pandas.DataFrame):
                 cols, _ = C8.fold_columns(res)
@@ -372,14 +422,14 @@ def evaluate(c, small=True):
     scale = max(float(numpy.abs(vals).max()) if len(S) else 1.0, 1.0)
     drop = c["drop"]
     # supplied values
-    if c["kind"] in ("consistent", "small"):
-        bound = C8.RTOL * scale + C8.ATOL_REL * scale if c["kind"] == "consistent" else math.sqrt(tol)
+    if ek in ("consistent", "small"):
+        bound = C8.RTOL * scale + C8.ATOL_REL * scale if ek == "consistent" else math.sqrt(tol)
         for t, j in enumerate(S):
             if present[j]:
                 mv = float(numpy.abs(x[j] - vals[t]).max())
                 if not mv <= bound:
                     i = int(numpy.argmax(numpy.abs(x[j] - vals[t])))
-                    viol.append(V(f"c09:supplied-moved:{c['kind']}" + ("" if suff else ":rank-deficient"),
+                    viol.append(V(f"c09:supplied-moved:{ek}" + ("" if suff else ":rank-deficient"),
                                   f"{lab}: supplied {L.NAMES[j]} at volume {i} was {float(vals[t, i])!r}, came back {float(x[j, i])!r} (moved {mv:.3g} > {bound:.3g})"))
             elif float(numpy.abs(vals[t]).max()) >= 2 * drop:
                 viol.append(V("c09:supplied-missing", f"{lab}: supplied {L.NAMES[j]} ({vals[t].tolist()}) is absent from the result {list(res.columns)}"))
@@ -398,7 +448,7 @@ def evaluate(c, small=True):
         if present[j] and float(numpy.abs(x[j]).max()) <= drop / 2:
             viol.append(V("c09:drop:below-drop-atol-present" + (":no-relations" if norel else ""),
                           f"{lab}: {L.NAMES[j]} is below drop_atol at all volumes ({x[j].tolist()}) but present in the result"))
-        if not present[j] and suff and c["kind"] in ("consistent", "small") and float(numpy.abs(E[j]).max()) >= max(2 * drop, 2.0):
+        if not present[j] and suff and ek in ("consistent", "small") and float(numpy.abs(E[j]).max()) >= max(2 * drop, 2.0):
             viol.append(V("c09:drop:component-missing", f"{lab}: {L.NAMES[j]} (invariant tensor {E[j].tolist()}) is absent from the result"))
     info.update({"x": x, "present": present, "scale": scale})
     return viol, "accepted", info
@@ -439,31 +489,32 @@ def run_subsets(case):
     """part A: every (flag combination x applicable value kind) for each subset of the chunk, plain presentation"""
     s = case["system"]
     viol, outcomes, nfill = [], {}, 0
+    z, zc = case.get("z", "none"), case.get("zc")
     for mask in [case["mask"]]:
         S = L.mask_to_subset(s, mask)
-        for kind in applicable_kinds(s, S):
+        for kind in case.get("kinds") or applicable_kinds(s, S):
             for ir, ires in itertools.product((False, True), repeat=2):
-                c = {"system": s, "mask": mask, "kind": kind, "ir": ir, "ires": ires, "dtype": "float", "case": "lower",
-                     "order": "given", "extras": "V", "cwd": "empty", "drop": DEFAULT_DROP, "tol": None}
+                c = full_config({"system": s, "mask": mask, "kind": kind, "ir": ir, "ires": ires, "z": z, "zc": zc})
                 v, out, _ = evaluate(c, small=False)
                 nfill += 1
                 viol += v
                 outcomes[out] = outcomes.get(out, 0) + 1
     # smallest failing subset first, so that the replay message names a minimal input
     return {"viol": C8.dedupe(viol, 1), "outcome": "subsets:" + s + ":" + ",".join(sorted(o.split(":")[0] for o in outcomes)),
-            "key": f"subsets:{s}:{case['mask']}", "nfill": nfill, "detail": outcomes}
+            "key": f"subsets:{s}:{case['mask']}:{z}:{zc}", "nfill": nfill, "detail": outcomes}
 
 
 def full_config(case):
     """lattice / CLI cases carry only their deviations from the default configuration (short replays)"""
     c = {k: v[0] for k, v in DIMS.items() if k != "subset"}
+    c["zc"] = None
     c.update(case)
     return c
 
 
 def baseline_of(c):
     b = dict(c)
-    b.update({"case": "lower", "order": "given", "extras": "V", "cwd": "empty", "dtype": c["dtype"]})
+    b.update({"case": "lower", "order": "given", "extras": "V", "cwd": "empty", "dtype": c["dtype"], "rows": "default"})
     return b
 
 
@@ -506,10 +557,10 @@ def _evaluate_float_of_ints(b):
     """plain presentation, float64 columns, but the integer-valued numbers of the int variant"""
     import pandas
     s = b["system"]
-    S = L.mask_to_subset(s, b["mask"])
+    S = supplied_components(s, b["mask"], b["z"], b["zc"])
     tol = DEFAULT_TOL if b["tol"] is None else b["tol"]
     A = relations_in_force(s, "empty")
-    E, vals, _ = scenario(s, S, b["kind"], True, True, tol, A)
+    E, vals, _ = scenario(s, S, b["kind"], True, True, tol, A, b["zc"] if z_inconsistent(b) else None)
     table, _ = make_table(S, vals, False, "lower", "given", "V")
     status, res = call_fill(s, table, "empty", b["ir"], b["ires"], b["drop"], b["tol"])
     if status != "ok" or not isinstance(res, pandas.DataFrame) or len(res) != NV:
@@ -588,15 +639,17 @@ PRINT_TOL = 1e-6     # pandas to_string prints floats with 6 decimals: half a un
 def run_cli(case):
     c = full_config(case)
     s = c["system"]
-    S = L.mask_to_subset(s, c["mask"])
+    S = supplied_components(s, c["mask"], c["z"], c["zc"])
     A = relations_in_force(s, "empty")
-    E, vals, jstar = scenario(s, S, c["kind"], False, True, DEFAULT_TOL, A)
+    E, vals, jstar = scenario(s, S, c["kind"], False, True, DEFAULT_TOL, A, c["zc"] if z_inconsistent(c) else None)
     table, nonmod = make_table(S, vals, False, "lower", "given", "V")
     suff = L.is_sufficient(s, S)
-    refuse = (not suff and not c["ir"]) or (c["kind"] == "large" and not c["ires"])
+    ek = "large" if (c["kind"] == "large" or z_inconsistent(c)) else c["kind"]
+    refuse = (not suff and not c["ir"]) or (ek == "large" and not c["ires"])
     args = cli_args(c)
     code, exc, out = invoke_cli(args, {"elast.dat": table_text(table)}, mkdirs=[s] if c["cwd"] == "dir" else [])
-    lab = f"`cij {' '.join(args)}` on table [V,{','.join(C8.names(S))}] kind={c['kind']} cwd={c['cwd']}"
+    lab = (f"`cij {' '.join(args)}` on table [V,{','.join(C8.names(S))}] kind={c['kind']} cwd={c['cwd']}"
+           + (f" (vanishing {c['zc']} non-zero)" if z_inconsistent(c) else ""))
     viol = []
     ename = type(exc).__name__ if exc is not None else "none"
     if code != 0:
@@ -621,7 +674,7 @@ def run_cli(case):
         viol.append(V("c09:cli:V-changed", f"{lab}: V column printed as {cols.get('v')}"))
     x, present = vector(cols)
     drop = c["drop"]
-    if c["kind"] == "consistent":
+    if ek == "consistent":
         for t, j in enumerate(S):
             if present[j] and not float(numpy.abs(x[j] - vals[t]).max()) <= PRINT_TOL:
                 viol.append(V("c09:cli:supplied-moved", f"{lab}: supplied {L.NAMES[j]} {vals[t].tolist()} printed as {x[j].tolist()}"))
@@ -743,6 +796,12 @@ def canon_lattice(case, subsets):
     S = L.mask_to_subset(c["system"], mask)
     if c["kind"] not in applicable_kinds(c["system"], S, ints=c["dtype"] == "int"):
         return None
+    if c["z"] != "none":
+        van = vanishing(c["system"])
+        if not van:
+            return None                      # triclinic: nothing vanishes
+        if c["z"] in ("one", "zeros+one"):
+            c["zc"] = L.NAMES[van[0]]
     return c
 
 
@@ -793,7 +852,10 @@ def explore(ctx):
                 "orthorhombic complete + boundary layers of the others, thorough: all subsets of all systems but triclinic (sizes "
                 "19..21). B: deviation lattice (quick <= 2, thorough <= 3 deviations) around each system's minimal sufficient set over "
                 "subset kind, flags, value kind, dtype, letter case, column order, extra columns, working directory / relations file, "
-                "drop_atol, residual_atol; each configuration is compared with its plain presentation. C: `cij fill` (CliRunner, "
+                "drop_atol, residual_atol, row labels of the frame, supplied vanishing components; each configuration is compared with "
+                "its plain presentation. E: supplied VANISHING components {all as 0; one non-zero (each vanishing component, quick: first "
+                "and last); all supplied with one non-zero} x the named subsets (minimal, +1, -1, full, -1+1; full + all vanishing = the "
+                "complete 21-column table) x flags x value kinds. C: `cij fill` (CliRunner, "
                 "per-case cwd): subset kind x value kind x flags x --drop-atol x cwd. D (mode B): all histories over {fill_cij, cij fill} "
                 "up to depth 3 from the minimal and the full table. non-trivial = every case (each runs the real code on a distinct input)")
     ctx.assumptions = ["sufficiency/relations oracle: mc.ref.laue_ref (exact); inconsistency measured by numpy lstsq in the harness",
@@ -844,9 +906,30 @@ def explore(ctx):
         ctx.notes["A_not_exhaustive"] = "see A_subsets[*].rule: triclinic is restricted to the layers next to the full set in both tiers" + \
             ("; the other systems are complete" if not quick and not restrict else "") + \
             ("; --budget too small: trigonal7 and monoclinic restricted to |S| within 2 of the boundary" if restrict else "")
+    # ---- E: supplied vanishing components (incl. the complete 21-column tables)
+    subsets = {s: named_subsets(s) for s in L.SYSTEMS}
+    cases, zcount = [], {}
+    for s in L.SYSTEMS:
+        van = vanishing(s)
+        if not van:
+            continue
+        zcs = [L.NAMES[j] for j in (van if not quick else sorted({van[0], van[-1]}))]
+        zmodes = [("zeros", None)] + [(z, zc) for z in ("one", "zeros+one") for zc in zcs]
+        masks = sorted({m for m in subsets[s].values() if m is not None})
+        zcount[s] = {"vanishing_components": len(van), "non_zero_candidates": len(zcs), "subsets": len(masks), "z_modes": len(zmodes)}
+        for m in masks:
+            for z, zc in zmodes:
+                c = {"what": "subsets", "system": s, "mask": m, "z": z}
+                if zc:
+                    c["zc"] = zc
+                cases.append(c)
+    res = ctx.run(MOD, "run_case", cases, part="vanishing-components-x-flags-x-kinds", chunksize=4, transitions=0)
+    nf = sum(r.get("nfill", 0) for r in res)
+    ctx.transitions += nf
+    ctx.notes["E_vanishing"] = zcount
+    ctx.notes["E_fill_calls"] = nf
     # ---- B
     bound = 2 if quick else 3
-    subsets = {s: named_subsets(s) for s in L.SYSTEMS}
     cases, seen, edges = [], set(), 0
     for s in L.SYSTEMS:
         for cfg, k in lattice(DIMS, bound):
@@ -890,6 +973,23 @@ def explore(ctx):
                             c = {"what": "cli", "system": s, "mask": mask, "kind": kind, "ir": ir, "ires": ires,
                                  "drop": drop, "cwd": cwd}
                             cases.append({k_: v for k_, v in c.items() if k_ not in DIMS or v != DIMS[k_][0]})
+    # ... and the tables with supplied vanishing components / complete 21-column tables
+    for s in L.SYSTEMS:
+        van = vanishing(s)
+        if not van:
+            continue
+        for label in ("min", "full"):
+            mask = subsets[s][label]
+            S = L.mask_to_subset(s, mask)
+            for z in ("zeros", "one", "zeros+one"):
+                for kind in applicable_kinds(s, S):
+                    if kind == "small":
+                        continue
+                    for ir, ires in itertools.product((False, True), repeat=2):
+                        c = {"what": "cli", "system": s, "mask": mask, "kind": kind, "ir": ir, "ires": ires, "z": z}
+                        if z != "zeros":
+                            c["zc"] = L.NAMES[van[0]]
+                        cases.append({k_: v for k_, v in c.items() if k_ not in DIMS or v != DIMS[k_][0]})
     seen, uniq = set(), []
     for c in cases:
         k = case_key(c)
